@@ -812,6 +812,21 @@ func (e *Engine) intrinsic(fr *frame, name string, args []Value) (Value, bool) {
 		}
 		e.notes = append(e.notes, msg+" "+strings.Join(parts, " "))
 		return nil, true
+	case "verifJanitorCycle":
+		// one cleanup cycle of every janitor started so far, on the receiver the constructor passed to it
+		for _, r := range e.janitors {
+			pv, ok := r.(PtrVal)
+			if !ok || pv.C == nil {
+				panic(engineErr("verifJanitorCycle: janitor receiver is not a pointer"))
+			}
+			tt := e.libTypeLocal("Trait")
+			fn := e.lookupMethod(types.NewPointer(tt), "invokeCleanup")
+			if fn == nil {
+				panic(engineErr("verifJanitorCycle: (*Trait).invokeCleanup not found"))
+			}
+			e.callFunc(fr, &FuncVal{Fn: fn}, []Value{r})
+		}
+		return tb.BVConst(uint64(len(e.janitors)), 64), true
 	case "verifRunBackground":
 		e.runPending(fr)
 		return nil, true
